@@ -2599,6 +2599,13 @@ XPathProcessorImpl::QName()
         consumeExpected(XalanUnicode::charColon);
     }
 
+    if (XalanQName::isValidNCName(m_token) == false)
+    {
+        error(
+            XalanMessages::IsNotValidNCName_1Param,
+            m_token);
+    }
+
     m_expression->pushCurrentTokenOnOpCodeMap();
 
     nextToken();
